@@ -240,8 +240,9 @@ def c16():
     # ledger rules on the code paths of every tolerated erasure pattern (each decode path allocates differently):
     # all |E| < hd sets of every third XOR table and of small RS / ISA-L shapes, aligned and unaligned inputs
     sw = []
-    for ti, (k, m, hd) in enumerate(XOR_TABLES[(chk.seed % 3)::3] if not thorough else XOR_TABLES):
-        sw.append(sweep_cmd(BE_XOR, k, m, hd, 1 + ti % 2, len_classes(BE_XOR, k)[4], _seed_of(chk, 400 + ti), 0, min(hd, m), 10**9 if hd - 1 <= 3 else 3000, 1 | 2 | 8 | 16))
+    for ti, (k, m, hd) in enumerate(XOR_TABLES):
+        sw.append(sweep_cmd(BE_XOR, k, m, hd, 1 + ti % 2, len_classes(BE_XOR, k)[4], _seed_of(chk, 400 + ti), 0, min(hd, m),
+                            (10**9 if hd - 1 <= 3 else 3000) if thorough else 120, 1 | 2 | 8 | 16))
     for be in (BE_RS, BE_ISAL_VAND, BE_ISAL_CAUCHY):
         for (k, m) in rs_shapes(8 if thorough else 6):
             sw.append(sweep_cmd(be, k, m, m, 2, len_classes(be, k)[5], _seed_of(chk, 500 + k * 9 + m), 0, k + m, 10**9, 1 | 2 | 8 | 16))
